@@ -513,6 +513,17 @@ def split_format_literal(lit):
     return pieces
 
 
+def _free_standing(st, k):
+    """the token at k does not continue a path (`a::b`) or a method / field access (`a.b`); a `..` before it is fine"""
+    if k == 0:
+        return True
+    if st[k - 1] == ':':
+        return False
+    if st[k - 1] == '.' and not (k >= 2 and st[k - 2] == '.'):
+        return False
+    return True
+
+
 def auto_ops(c, rules, prefix):
     """T14 / T15, located in the CURRENT text (like attribute stripping they carry no proof anchors):
     'fmt'   : format!("a{}b{}c", e1, e2)  ->  fmt_<prefix>_<k>(&(e1), &(e2))   with the contract r == "a" + e1 + "b" + e2 + "c" GENERATED
@@ -523,7 +534,7 @@ def auto_ops(c, rules, prefix):
     if 'fmt' in rules:
         ordinal = 0
         for k in range(len(st) - 3):
-            if st[k] == 'format' and st[k + 1] == '!' and st[k + 2] == '(' and (k == 0 or st[k - 1] not in ('.', '::')):
+            if st[k] == 'format' and st[k + 1] == '!' and st[k + 2] == '(' and _free_standing(st, k):
                 close = match_close(st, k + 2)
                 name = 'fmt_%s_%d' % (prefix, ordinal)
                 ordinal += 1
@@ -560,7 +571,7 @@ def auto_ops(c, rules, prefix):
             pat = Src(rule[1]).sigtext
             n = len(pat)
             for k in range(len(st) - n + 1):
-                if st[k:k + n] == pat and (k == 0 or st[k - 1] not in ('.', '::')):
+                if st[k:k + n] == pat and _free_standing(st, k):
                     out.append((sig[k][1], sig[k + n - 1][2], 'rep', rule[2], {'tag': rule[3] if len(rule) > 3 else 'T15'}))
     if 'strlit' in rules:
         for k in range(len(st) - 4):
@@ -590,7 +601,9 @@ def apply(pinned_text, current_text, edits, strip_attrs=True, cfg_features=None,
                 continue  # inside an element already dropped by T10
             attr = c.text[c.sig[a][1]:c.sig[b][2]]
             m = re.match(r'#\s*\[\s*cfg\s*\(\s*feature\s*=\s*"([^"]+)"\s*\)\s*\]$', attr)
-            if m and cfg_features is not None and m.group(1) not in cfg_features:
+            mnot = re.match(r'#\s*\[\s*cfg\s*\(\s*not\s*\(\s*feature\s*=\s*"([^"]+)"\s*\)\s*\)\s*\]$', attr)
+            if cfg_features is not None and ((m and m.group(1) not in cfg_features) or (mnot and mnot.group(1) in cfg_features)):
+                m = m or mnot
                 # T10: feature off -> drop the attribute and the element it guards
                 j, depth = b + 1, 0
                 while j < len(st):
@@ -610,7 +623,7 @@ def apply(pinned_text, current_text, edits, strip_attrs=True, cfg_features=None,
                 add(c.sig[a][1], c.sig[j][2], 'drop', '', {'tag': 'T10', 'note': 'feature %s off' % m.group(1)})
                 skip_until = j
             else:
-                add(c.sig[a][1], c.sig[b][2], 'drop', '', {'tag': 'T10' if m else 'T5'})
+                add(c.sig[a][1], c.sig[b][2], 'drop', '', {'tag': 'T10' if (m or mnot) else 'T5'})
     for e in edits:
         r = resolve(p, e.anchor)
         if e.kind == 'ins':
